@@ -37,6 +37,8 @@ use crate::version::Version;
 use mio::net::{TcpListener, UdpSocket};
 use mio::{Events, Poll, PollOpt, Ready, Token};
 use mio_extras::timer::Timer;
+use net2::unix::UnixTcpBuilderExt;
+use net2::TcpBuilder;
 use rand::{thread_rng, RngCore};
 
 // mio event registrations
@@ -106,7 +108,17 @@ impl Server {
                 .parse()
                 .unwrap();
 
-            let tcp_listener = TcpListener::bind(&hc_sock_addr)
+            // Every worker listens on the health check port, so (like the UDP socket)
+            // the listener needs SO_REUSEPORT or only the first worker could bind it
+            let tcp_listener = TcpBuilder::new_v4()
+                .and_then(|builder| {
+                    builder
+                        .reuse_address(true)?
+                        .reuse_port(true)?
+                        .bind(hc_sock_addr)?
+                        .listen(1024)
+                })
+                .and_then(TcpListener::from_std)
                 .expect("failed to bind TCP listener for health check");
 
             poll.register(
